@@ -4,13 +4,14 @@ VARIABLE hist
 H(r) == hist' = Append(hist, r)
 GInit == Init /\ hist = <<>>
 GNext ==
-  /\ steps < MaxSteps
-  /\ \/ \E m \in BOOLEAN : Stdout(m) /\ H([a |-> "Stdout", marker |-> m])
-     \/ Stderr /\ H([a |-> "Stderr"])
-     \/ \E h \in {"ok", "authfail", "refused"} : Connect(h) /\ H([a |-> "Connect", how |-> h])
-     \/ \E ok \in BOOLEAN : CtlReply(ok) /\ H([a |-> "CtlReply", ok |-> ok])
-     \/ \E p \in {10, 50, 100} : Progress(p) /\ H([a |-> "Progress", p |-> p])
-     \/ Timeout /\ H([a |-> "Timeout"])
-     \/ Exit /\ H([a |-> "Exit"])
+  /\ steps < MaxSteps /\ ~shut
+  /\ \/ Shutdown /\ H([a |-> "Shutdown"])
+     \/ \E m \in BOOLEAN : Stdout(m) /\ UNCHANGED shut /\ H([a |-> "Stdout", marker |-> m])
+     \/ Stderr /\ UNCHANGED shut /\ H([a |-> "Stderr"])
+     \/ \E h \in {"ok", "authfail", "refused"} : Connect(h) /\ UNCHANGED shut /\ H([a |-> "Connect", how |-> h])
+     \/ \E ok \in BOOLEAN : CtlReply(ok) /\ UNCHANGED shut /\ H([a |-> "CtlReply", ok |-> ok])
+     \/ \E p \in {10, 50, 100} : Progress(p) /\ UNCHANGED shut /\ H([a |-> "Progress", p |-> p])
+     \/ Timeout /\ UNCHANGED shut /\ H([a |-> "Timeout"])
+     \/ Exit /\ UNCHANGED shut /\ H([a |-> "Exit"])
 GSpec == GInit /\ [][GNext]_<<vars, hist>>
 ====
